@@ -155,6 +155,11 @@ func init() {
 			if e.spec > 0 {
 				e.abortSpec("crc32 model lemma")
 			}
+			// z3's incremental core is weak on xor networks; let it fall back to the full QF_BV solver after
+			// 100 ms (options are idempotent; they only select the decision procedure, never the answer)
+			if e.solver != nil && !e.solver.Dead {
+				e.solver.Send("(set-option :combined_solver.solver2_timeout 100)\n(set-option :combined_solver.solver2_unknown 2)\n")
+			}
 			wp := weak.Make(e)
 			c35Crc.mu.Lock()
 			c35Crc.ncalls++
